@@ -25,6 +25,7 @@ type c05Cfg struct {
 	periods          int   // 0 none
 	stop             int64 // 0 none; absolute seconds
 	start            int64
+	extra            string // one more URL parameter (e.g. utc_direct-httpisoms), "" none
 }
 
 func (c c05Cfg) parts() []string {
@@ -47,6 +48,9 @@ func (c c05Cfg) parts() []string {
 	}
 	if c.periods > 0 {
 		p = append(p, fmt.Sprintf("periods_%d", c.periods))
+	}
+	if c.extra != "" {
+		p = append(p, c.extra)
 	}
 	return p
 }
@@ -109,6 +113,12 @@ func TestVerifC05(t *testing.T) {
 										}
 										if periods > 0 && start != 0 {
 											continue // multi-period with a non-zero start time is outside the stated quantifier (see DESIGN C06)
+										}
+										if tsbd == 10 && stopK == 0 && ato == 0 && start == 0 && periods == 0 {
+											// parameters that add elements to the MPD: none of them may make the content depend on the request instant
+											for _, extra := range []string{"utc_direct", "utc_direct-httpisoms", "utc_head-ntp-sntp-httpxsdate-httpiso", "scte35_1", "mup_3", "spd_4", "ltgt_2500", "patch_60"} {
+												cfgs = append(cfgs, c05Cfg{root: root, asset: ap, mpd: mpdName, mode: mode, atoMS: ato, tsbd: tsbd, extra: extra})
+											}
 										}
 										k++
 										// quick: a covering third of the product; the multi-period configuration whose
